@@ -37,6 +37,9 @@ def specs(tier):
         J('fork-steady2:H1S1K1P1', 'steady', dict(n=2, journal='file+dump', use_fork=True), dict(H=1, S=1, K=1, P=1), dict(k=2)),
         J('fork-lagging3:H2R1K1S1', 'lagging', dict(n=3, journal='file+dump', use_fork=True, chunk=100), dict(H=2, R=1, K=1, S=1)),
         # the connection breaks in the middle of a multi-chunk snapshot transfer (inside the leader's send call)
+        # the follower's own dump child (fork) is still running when a newer snapshot arrives from the leader
+        J('fork-lagsnap3-ownchild:H1R1K1P1', 'lagging_snap', dict(n=3, journal='file+dump', use_fork=True, kill_only=('n3:1',)),
+          dict(H=1, R=1, K=1, P=1), extra_monitors=(('mc.monitors_c06', 'DurabilityMonitor', {}),)),
         # the receiver's own compaction fires while a multi-piece snapshot is coming in (two writers, one directory)
         J('file-lagsnap3-chunk64-owncompact:H1R1K1P1', 'lagging_snap', dict(n=3, journal='file+dump', chunk=64, kill_only=('n3:1',), write_buffer=100),
           dict(H=1, R=1, K=1, P=1)),
